@@ -55,6 +55,12 @@ Proof.
     + (* flush *) split; [lia|split].
       * intros d0 Hd. rewrite HP in Hd. eauto.
       * intros Hc. rewrite Nat.add_0_r in Hc. destruct (R Hc). rewrite HP. auto.
+    + (* get *) split; [lia|split].
+      * intros d0 Hd. rewrite HP in Hd. eauto.
+      * intros Hc. rewrite Nat.add_0_r in Hc. destruct (R Hc). rewrite HP. auto.
+    + (* get of a missing document *) split; [lia|split].
+      * intros d0 Hd. rewrite HP in Hd. eauto.
+      * intros Hc. rewrite Nat.add_0_r in Hc. destruct (R Hc). rewrite HP. auto.
     + (* error *)
       assert (E0 : (if match o with OAdd _ => false | _ => false end then 1 else 0)%nat = 0%nat) by (destruct o; reflexivity).
       rewrite E0.
